@@ -152,6 +152,39 @@ int main(void) {
         run.violation(dict(kind='stdatomic-api-semantics', what=st, got=got.strip(), expected=exp2,
                            meaning='exchange, compare-exchange and op= / ++ / -- on _Atomic float, double, char, long, _Bool and pointer objects (single thread); a run that does not end is a compare-exchange loop that can never succeed',
                            replay_program=api2), dict(area='atomic-api', types='non-integer'))
+    # ---- (b3) every operand is evaluated exactly once - also when its own evaluation updates the object, so that a compare-exchange
+    # inside the operation fails once (a deterministic, single-threaded interference) - and the old value has the object's type
+    api3 = '''#include <stdatomic.h>
+int printf(const char *, ...);
+_Atomic long x; _Atomic int xi; _Atomic unsigned char xc; int calls; long *_Atomic ap; long arr[4];
+static long op(long v) { calls++; if (calls == 1) { x += 100; xi += 100; xc += 100; } return v; }
+static int acalls; static _Atomic long *addr(void) { acalls++; return &x; }
+_Atomic signed char c = -1; _Atomic short s = -2; _Atomic unsigned char uc = 200; _Atomic unsigned short us = 65535; _Atomic _Bool bb = 1;
+#define T(init, expr) calls = 0; acalls = 0; x = 0; xi = 0; xc = 0; init; o = (expr); printf("%ld %ld %d %d %d %d | ", o, (long)x, (int)xi, (int)xc, calls, acalls);
+int main(void) {
+  long o; long e;
+  T(, atomic_fetch_add(&x, op(5))) T(, atomic_fetch_sub(&x, op(5))) T(, atomic_fetch_or(&x, op(3))) T(, atomic_fetch_xor(&x, op(3))) T(, atomic_fetch_and(&x, op(6)))
+  T(, atomic_fetch_add_explicit(&xi, op(5), memory_order_seq_cst)) T(, atomic_fetch_add(&xc, op(250))) T(, atomic_fetch_add(addr(), op(1)))
+  T(, x += op(7)) T(, xi -= op(7)) T(, xc *= op(3)) T(, x <<= op(2)) T(, xi |= op(64)) T(, *addr() += op(1))
+  T(, atomic_exchange(&x, op(9))) T(, atomic_exchange(addr(), op(9))) T(e = 100, atomic_compare_exchange_strong(&x, &e, op(11))) T(e = 5, atomic_compare_exchange_weak(&x, &e, op(11)))
+  T(, x++) T(, --xi) T(, xc--)
+  printf("\\n%d %d %d %d %d ", atomic_exchange(&c, 5), atomic_exchange(&s, 7), atomic_exchange(&uc, 1), atomic_exchange(&us, 2), atomic_exchange(&bb, 0));
+  printf("%d %d %d %d %d ", atomic_exchange(&c, -3), atomic_exchange(&s, -300), atomic_exchange(&uc, 255), atomic_exchange(&us, 1), atomic_exchange(&bb, 2));
+  printf("%d %d %d %d %d ", atomic_fetch_add(&c, 100), atomic_fetch_sub(&s, 100), atomic_fetch_or(&uc, 0), atomic_fetch_xor(&us, 65535), (int)bb);
+  printf("%d %d %d %d %d\\n", (int)(c -= 120), (int)(s *= 300), (int)(uc += 3), (int)us--, (int)(bb ^= 1));
+  return 0;
+}
+'''
+    f = os.path.join(wd, 'api3.c'); open(f, 'w').write(api3)
+    st, got = compile_run(CHIBI, f, os.path.join(wd, 'api3.exe'), run_timeout=10); evals += 1
+    rc, o, e = sh(['gcc', '-w', '-O0', '-o', f + '.g.exe', f]);
+    rc2, ref, e2 = sh([f + '.g.exe'], timeout=10) if rc == 0 else (1, '', '')
+    if rc != 0 or rc2 != 0: run.corr_broken.append('the operand-evaluation program fails under gcc: ' + (e + e2)[-200:])
+    elif st != 'ok' or got != ref:
+        run.violation(dict(kind='stdatomic-api-semantics', what=st, got=got.strip()[:900], expected=ref.strip()[:900],
+                           meaning='per operation: returned value, object values, number of operand evaluations (the operand updates the object on its first evaluation: an operation that re-evaluates it on a failed compare-exchange shows calls = 2); then old values returned for char/short/_Bool objects',
+                           replay_program=api3), dict(area='atomic-api', types='operand-evaluation'))
+
     # an _Atomic object wider than 8 bytes: either supported or refused with a located diagnostic, never an internal error
     for k, decl in enumerate(['_Atomic long double w;', 'struct S { long a, b; }; _Atomic struct S w; struct S v;']):
         use = 'w += 1;' if k == 0 else '__builtin_atomic_exchange(&w, v);'
